@@ -107,9 +107,20 @@ int main(int argc, char **argv) {
     chai->add(w.l_int, "local_const_int");
     chai->add(w.l_str, "local_const_str");
 
+    // registered functions are const objects too: what a name denotes must not be replaceable
+    chai->add(fun([]() { return 41; }), "host_fn");
+    chai->add(const_var(chaiscript::fun([]() { return 44; })), "const_var_fn");
+    auto fn_snapshot = [&](std::map<std::string, std::string> &m) {
+      for (const char *n : {"host_fn", "script_fn", "const_var_fn"}) {
+        vh::Outcome o = vh::classify([&]() -> std::string { return vh::render(chai->eval(std::string(n) + "()")); });
+        m[n] = o.cls + ":" + o.what;
+      }
+    };
+
     vh::Capture cap;
     cap.begin();
     vh::Outcome s = vh::classify([&]() -> std::string {
+      chai->eval("def script_fn() { 43 }");
       chai->eval(f[2]);
       return "";
     });
@@ -117,10 +128,12 @@ int main(int argc, char **argv) {
       cap.end();
       return {"setup-failed:" + s.cls, s.what};
     }
-    const auto before = w.snapshot();
+    auto before = w.snapshot();
+    fn_snapshot(before);
     vh::Outcome a = vh::classify([&]() -> std::string { return vh::render(chai->eval(f[3])); });
     cap.end();
-    const auto after = w.snapshot();
+    auto after = w.snapshot();
+    fn_snapshot(after);
     std::string changed;
     for (const auto &kv : before) {
       if (after.at(kv.first) != kv.second) changed += kv.first + "(" + kv.second + "->" + after.at(kv.first) + "),";
